@@ -96,6 +96,9 @@ def permute_mesh(rng, pts, cells, point_fields, cell_fields):
     rng.shuffle(cperm)
     npts = [pts[o] for o in perm]
     ncells = [(cells[o][0], [inv[c] for c in cells[o][1]]) for o in cperm]
+    if perm != sorted(perm):
+        # ... and, where the points are renumbered anyway, triangles / quads / polygons listed from another start corner
+        ncells = [(t, (c[k:] + c[:k]) if (t in (5, 7, 9) and rng.random() < 0.3) else c) for t, c in ncells for k in [rng.randrange(len(c))]]
     npf = [(nm, vt, nc, [v for o in perm for v in vals[o * nc:(o + 1) * nc]]) for nm, vt, nc, vals in point_fields]
     ncf = [(nm, vt, nc, [v for o in cperm for v in vals[o * nc:(o + 1) * nc]]) for nm, vt, nc, vals in cell_fields]
     return npts, ncells, npf, ncf
